@@ -21,6 +21,8 @@ Sequence of **Interaction** events (u, v, +/-, t):
 >>> 1 2 - 3
 """
 
+import codecs
+
 from dynetx.utils import open_file, make_str, compact_timeslot
 from dynetx import DynGraph
 from dynetx import DynDiGraph
@@ -64,9 +66,11 @@ def write_interactions(G, path, delimiter=' ', encoding='utf-8'):
         encoding: str
             Text enconding, default utf-8
         """
+    # one encoder for the whole file: codecs with a byte order mark (utf-8-sig, utf-16) emit it once, not per row
+    encoder = codecs.getincrementalencoder(encoding)()
     for line in generate_interactions(G, delimiter):
         line += '\n'
-        path.write(line.encode(encoding))
+        path.write(encoder.encode(line))
 
 
 @open_file(0, mode='rb')
@@ -201,9 +205,11 @@ def write_snapshots(G, path, delimiter=' ', encoding='utf-8'):
         encoding: str
             Encoding string, default utf-8
         """
+    # one encoder for the whole file: codecs with a byte order mark (utf-8-sig, utf-16) emit it once, not per row
+    encoder = codecs.getincrementalencoder(encoding)()
     for line in generate_snapshots(G, delimiter):
         line += '\n'
-        path.write(line.encode(encoding))
+        path.write(encoder.encode(line))
 
 
 def parse_snapshots(lines, comments='#', directed=False, delimiter=None, nodetype=None, timestamptype=None, keys=None):
